@@ -547,7 +547,19 @@ def _reduce(spec, finding):
                     return _solo(spec, dict(layer, configs=[{"form": "tuple", "n": max(2, c.get("n", 1)), "tree": node}]), T=sub_tree["in"])
                 descend(layer, c["tree"], mk, one, g1)
             if not hit_cfg:
-                out.append((solo, g, S.wrapper_family(layer)))
+                # no config violates alone (e.g. an unseeded view that only shows through a later view writing in place
+                # into the shared sample): name the configs whose replacement by identity views makes the violation disappear
+                needed = []
+                for k, c in enumerate(layer["configs"]):
+                    if c.get("tree") is None:
+                        continue
+                    others = [cc if kk != k else {"form": "tuple_none", "n": S.mv_views(c), "tree": None} for kk, cc in enumerate(layer["configs"])]
+                    if not _same_kind(finding, judge(_solo(spec, dict(layer, configs=others)))):
+                        needed.append(c)
+                if len(needed) == 1:
+                    out.append((solo, g, f"{S.wrapper_family(layer)}:{H.node_label(needed[0]['tree'])}"))
+                else:
+                    out.append((solo, g, S.wrapper_family(layer)))
         elif w == "semseg":
             hit_m = False
             for mnode in layer["members"]:
